@@ -1,0 +1,416 @@
+//go:build verif
+
+package window
+
+/*@
+pred slotOK(s, size) := s != nil && s.Start != nil && s.End != nil && *s.End == *s.Start + size
+
+func alignWindowStart
+  props C01 C08
+  option pure
+  ensures nonpositive-size: windowSize <= 0 ==> result == timestamp
+  ensures below: windowSize > 0 ==> result <= timestamp
+  ensures within: windowSize > 0 ==> timestamp < result + windowSize
+  ensures aligned: windowSize > 0 ==> result % windowSize == 0
+
+func (*TumblingWindow).createSlot
+  props C01
+  requires tw.size > 0
+  ensures fresh: fresh(result)
+  ensures shape: slotOK(result, tw.size)
+  ensures covers: *result.Start <= t && t < *result.End
+  ensures aligned: *result.Start % tw.size == 0
+
+func (*TumblingWindow).createSlotFromStart
+  props C01
+  ensures fresh: fresh(result)
+  ensures shape: slotOK(result, tw.size)
+  ensures start: *result.Start == start
+
+func (*TumblingWindow).NextSlot
+  props C01
+  held tw.mu
+  requires tw.currentSlot != nil ==> tw.currentSlot.End != nil
+  ensures nil: tw.currentSlot == nil ==> result == nil
+  ensures fresh: tw.currentSlot != nil ==> fresh(result)
+  ensures chain: tw.currentSlot != nil ==> slotOK(result, tw.size) && *result.Start == *tw.currentSlot.End
+  ensures alignment-preserved: tw.currentSlot != nil && tw.size > 0 && slotOK(tw.currentSlot, tw.size) && *tw.currentSlot.Start % tw.size == 0 ==> *result.Start % tw.size == 0
+
+func (*TumblingWindow).dropLastRow
+  props C01 C02
+  held tw.mu
+  modifies tw.data
+  ensures nonempty: len(old(tw.data)) > 0 ==> len(tw.data) == len(old(tw.data)) - 1
+  ensures prefix: forall(i, 0, len(tw.data), tw.data[i] == old(tw.data)[i])
+  ensures empty: len(old(tw.data)) == 0 ==> len(tw.data) == 0
+@*/
+
+/*@
+recfunc rowsIn((a (Array Int S_types.Row)) (n Int) (lo Int) (hi Int) (slot Int)) Slice_S_types.Row := (ite (<= n 0) (mkSlice_S_types.Row ((as const (Array Int S_types.Row)) (mkS_types.Row (- 62135596800000000000) VNil 0)) 0 false) (let ((r (@rowsIn a (- n 1) lo hi slot)) (x (select a (- n 1)))) (ite (and (<= lo (S_types.Row.Timestamp x)) (< (S_types.Row.Timestamp x) hi)) (mkSlice_S_types.Row (store (Slice_S_types.Row.arr r) (Slice_S_types.Row.len r) (mkS_types.Row (S_types.Row.Timestamp x) (S_types.Row.Data x) slot)) (+ (Slice_S_types.Row.len r) 1) false) r)))
+
+recfunc rowsOut((a (Array Int S_types.Row)) (n Int) (lo Int) (hi Int)) Slice_S_types.Row := (ite (<= n 0) (mkSlice_S_types.Row ((as const (Array Int S_types.Row)) (mkS_types.Row (- 62135596800000000000) VNil 0)) 0 false) (let ((r (@rowsOut a (- n 1) lo hi)) (x (select a (- n 1)))) (ite (and (<= lo (S_types.Row.Timestamp x)) (< (S_types.Row.Timestamp x) hi)) r (mkSlice_S_types.Row (store (Slice_S_types.Row.arr r) (Slice_S_types.Row.len r) x) (+ (Slice_S_types.Row.len r) 1) false))))
+
+func (*TumblingWindow).extractWindowDataLocked
+  props C01
+  held tw.mu
+  requires tw.currentSlot != nil ==> tw.currentSlot.Start != nil && tw.currentSlot.End != nil
+  modifies tw.data
+  ensures no-slot: tw.currentSlot == nil ==> len(result) == 0 && tw.data == old(tw.data)
+  ensures batch: tw.currentSlot != nil && len(rowsIn(arr(old(tw.data)), len(old(tw.data)), *tw.currentSlot.Start, *tw.currentSlot.End, tw.currentSlot)) > 0 ==> result == rowsIn(arr(old(tw.data)), len(old(tw.data)), *tw.currentSlot.Start, *tw.currentSlot.End, tw.currentSlot)
+  ensures kept: tw.currentSlot != nil && len(rowsIn(arr(old(tw.data)), len(old(tw.data)), *tw.currentSlot.Start, *tw.currentSlot.End, tw.currentSlot)) > 0 ==> tw.data == rowsOut(arr(old(tw.data)), len(old(tw.data)), *tw.currentSlot.Start, *tw.currentSlot.End)
+  ensures empty: tw.currentSlot != nil && len(rowsIn(arr(old(tw.data)), len(old(tw.data)), *tw.currentSlot.Start, *tw.currentSlot.End, tw.currentSlot)) == 0 ==> len(result) == 0 && tw.data == old(tw.data)
+  loop 1 invariant resultData == rowsIn(arr($s), $i, *tw.currentSlot.Start, *tw.currentSlot.End, tw.currentSlot)
+  loop 2 invariant newData == rowsOut(arr($s), $i, *tw.currentSlot.Start, *tw.currentSlot.End)
+@*/
+
+/*@
+guarded_by Watermark.mu: currentWatermark, lastSentWatermark, maxEventTime, lastEventTime
+immutable Watermark: maxOutOfOrderness, idleTimeout
+monitor Watermark.mu inv wmInv
+
+pred wmInv(wm) := wm.lastSentWatermark <= wm.currentWatermark && wm.maxEventTime >= ZERO_T
+  && (wm.maxOutOfOrderness >= 0 && zero(wm.maxEventTime) ==> zero(wm.currentWatermark))
+  && (wm.maxOutOfOrderness >= 0 && !zero(wm.maxEventTime) && wm.idleTimeout <= 0 ==> zero(wm.currentWatermark) || wm.currentWatermark <= wm.maxEventTime - wm.maxOutOfOrderness)
+
+func (*Watermark).sendWatermarkLocked
+  props C02
+  held wm.mu
+  requires wm.lastSentWatermark <= wm.currentWatermark
+  modifies wm.lastSentWatermark
+  ensures sent-is-current: wm.lastSentWatermark == old(wm.lastSentWatermark) || wm.lastSentWatermark == wm.currentWatermark
+  ensures bounded: wm.lastSentWatermark <= wm.currentWatermark
+  ensures monotone: wm.lastSentWatermark >= old(wm.lastSentWatermark)
+
+func (*Watermark).UpdateEventTime
+  props C01 C02
+  acquires wm.mu
+  modifies wm.lastEventTime, wm.maxEventTime, wm.currentWatermark, wm.lastSentWatermark
+  ensures monotone: wm.currentWatermark >= old(wm.currentWatermark)
+  ensures max-monotone: zero(old(wm.maxEventTime)) || wm.maxEventTime >= old(wm.maxEventTime)
+  ensures future-ignored: eventTime > now() + wm.maxOutOfOrderness + 86400000000000 ==> wm.maxEventTime == old(wm.maxEventTime) && wm.currentWatermark == old(wm.currentWatermark)
+  ensures accepted: eventTime <= now() + wm.maxOutOfOrderness + 86400000000000 && (zero(old(wm.maxEventTime)) || eventTime > old(wm.maxEventTime)) ==> wm.maxEventTime == eventTime && wm.currentWatermark == ite(eventTime - wm.maxOutOfOrderness > old(wm.currentWatermark), eventTime - wm.maxOutOfOrderness, old(wm.currentWatermark))
+  ensures not-newer: !zero(old(wm.maxEventTime)) && eventTime <= old(wm.maxEventTime) ==> wm.maxEventTime == old(wm.maxEventTime) && wm.currentWatermark == old(wm.currentWatermark)
+  ensures inv: wmInv(wm)
+
+func (*Watermark).update
+  props C02
+  acquires wm.mu
+  modifies wm.currentWatermark, wm.lastSentWatermark
+  ensures monotone: wm.currentWatermark >= old(wm.currentWatermark)
+  ensures no-idle: wm.idleTimeout <= 0 ==> wm.currentWatermark == old(wm.currentWatermark) || wm.currentWatermark == wm.maxEventTime - wm.maxOutOfOrderness
+  ensures untouched-before-first-event: zero(wm.maxEventTime) ==> wm.currentWatermark == old(wm.currentWatermark)
+  ensures inv: wmInv(wm)
+
+func (*Watermark).GetCurrentWatermark
+  props C02
+  acquires wm.mu
+  ensures result == wm.currentWatermark
+
+func (*Watermark).IsEventTimeLate
+  props C01 C02
+  acquires wm.mu
+  ensures late-iff-below-watermark: result == (!zero(wm.currentWatermark) && eventTime < wm.currentWatermark)
+@*/
+
+/*@
+recfunc stampAll((a (Array Int S_types.Row)) (n Int) (slot Int)) Slice_S_types.Row := (ite (<= n 0) (mkSlice_S_types.Row ((as const (Array Int S_types.Row)) (mkS_types.Row (- 62135596800000000000) VNil 0)) 0 false) (let ((r (@stampAll a (- n 1) slot)) (x (select a (- n 1)))) (mkSlice_S_types.Row (store (Slice_S_types.Row.arr r) (Slice_S_types.Row.len r) (mkS_types.Row (S_types.Row.Timestamp x) (S_types.Row.Data x) slot)) (+ (Slice_S_types.Row.len r) 1) false)))
+
+recfunc rowsInFrom((init Slice_S_types.Row) (a (Array Int S_types.Row)) (n Int) (lo Int) (hi Int) (slot Int)) Slice_S_types.Row := (ite (<= n 0) init (let ((r (@rowsInFrom init a (- n 1) lo hi slot)) (x (select a (- n 1)))) (ite (and (<= lo (S_types.Row.Timestamp x)) (< (S_types.Row.Timestamp x) hi)) (mkSlice_S_types.Row (store (Slice_S_types.Row.arr r) (Slice_S_types.Row.len r) (mkS_types.Row (S_types.Row.Timestamp x) (S_types.Row.Data x) slot)) (+ (Slice_S_types.Row.len r) 1) false) r)))
+
+recfunc rowsFrom((a (Array Int S_types.Row)) (n Int) (lo Int)) Slice_S_types.Row := (ite (<= n 0) (mkSlice_S_types.Row ((as const (Array Int S_types.Row)) (mkS_types.Row (- 62135596800000000000) VNil 0)) 0 false) (let ((r (@rowsFrom a (- n 1) lo)) (x (select a (- n 1)))) (ite (<= lo (S_types.Row.Timestamp x)) (mkSlice_S_types.Row (store (Slice_S_types.Row.arr r) (Slice_S_types.Row.len r) x) (+ (Slice_S_types.Row.len r) 1) false) r)))
+
+guarded_by TumblingWindow.mu: data, currentSlot, initialized, triggeredWindows, callback
+immutable TumblingWindow: config, size
+monitor TumblingWindow.mu inv twInv
+
+pred twInv(tw) := tw.size > 0
+  && (tw.initialized ==> tw.currentSlot != nil)
+  && (tw.currentSlot != nil ==> slotOK(tw.currentSlot, tw.size) && *tw.currentSlot.Start % tw.size == 0)
+  && tw.triggeredWindows != nil
+  && forallv(k, "", dom(tw.triggeredWindows, k) ==> tw.triggeredWindows[k] != nil && slotOK(tw.triggeredWindows[k].slot, tw.size))
+
+extern extractTimestamp
+  option pure
+
+func (*TumblingWindow).getWindowKey
+  props C02
+  option pure
+
+func (*TumblingWindow).sendResult
+  props C01
+  ensures true
+
+func (*TumblingWindow).extractLateUpdateDataLocked
+  props C02
+  held tw.mu
+  requires slot != nil && slot.Start != nil && slot.End != nil
+  requires forallv(k, "", dom(tw.triggeredWindows, k) ==> tw.triggeredWindows[k] != nil)
+  modifies tw.data, heap(triggeredWindowInfo.snapshotData)
+  ensures late-batch: len(result) > 0 ==> result == rowsInFrom(stampAll(arr(old(tw.triggeredWindows[getWindowKey(tw, *slot.End)].snapshotData)), ite(dom(tw.triggeredWindows, getWindowKey(tw, *slot.End)), len(old(tw.triggeredWindows[getWindowKey(tw, *slot.End)].snapshotData)), 0), slot), arr(old(tw.data)), len(old(tw.data)), *slot.Start, *slot.End, slot)
+  ensures evicted: tw.data == rowsOut(arr(old(tw.data)), len(old(tw.data)), *slot.Start, *slot.End)
+  ensures snapshot-updated: len(result) > 0 && dom(tw.triggeredWindows, getWindowKey(tw, *slot.End)) ==> len(tw.triggeredWindows[getWindowKey(tw, *slot.End)].snapshotData) == len(result) && forall(k, 0, len(result), tw.triggeredWindows[getWindowKey(tw, *slot.End)].snapshotData[k].Data == result[k].Data && tw.triggeredWindows[getWindowKey(tw, *slot.End)].snapshotData[k].Timestamp == result[k].Timestamp && tw.triggeredWindows[getWindowKey(tw, *slot.End)].snapshotData[k].Slot == slot)
+  loop 1 invariant resultData == stampAll(arr($s), $i, slot)
+  loop 2 invariant resultData == rowsInFrom(stampAll(arr(old(tw.triggeredWindows[getWindowKey(tw, *slot.End)].snapshotData)), ite(dom(tw.triggeredWindows, getWindowKey(tw, *slot.End)), len(old(tw.triggeredWindows[getWindowKey(tw, *slot.End)].snapshotData)), 0), slot), arr($s), $i, *slot.Start, *slot.End, slot)
+  loop 2 invariant kept == rowsOut(arr($s), $i, *slot.Start, *slot.End)
+  loop 3 invariant len(windowInfo.snapshotData) == len(resultData) && windowInfo != nil
+  loop 3 invariant forall(k, 0, $i, windowInfo.snapshotData[k].Data == resultData[k].Data && windowInfo.snapshotData[k].Timestamp == resultData[k].Timestamp && windowInfo.snapshotData[k].Slot == slot)
+
+func (*TumblingWindow).handleLateData
+  props C02
+  held tw.mu
+  requires twInv(tw)
+  modifies *
+  ensures still-locked: held(tw.mu) && wheld(tw.mu)
+  ensures inv: twInv(tw)
+  loop 1 invariant held(tw.mu) && wheld(tw.mu) && twInv(tw)
+
+func (*TumblingWindow).closeExpiredWindows
+  props C02
+  held tw.mu
+  requires twInv(tw)
+  modifies tw.data, mapof(tw.triggeredWindows)
+  ensures expiry-rule: forallv(k, "", dom(tw.triggeredWindows, k) <==> old(dom(tw.triggeredWindows, k)) && watermarkTime < old(tw.triggeredWindows[k].closeTime))
+  ensures survivors-unchanged: forallv(k, "", dom(tw.triggeredWindows, k) ==> tw.triggeredWindows[k] == old(tw.triggeredWindows[k]))
+  ensures inv: twInv(tw)
+  loop 1 invariant forallv(k, "", dom(tw.triggeredWindows, k) <==> old(dom(tw.triggeredWindows, k)) && !($visited[k] && watermarkTime >= old(tw.triggeredWindows[k].closeTime)))
+  loop 1 invariant forallv(k, "", dom(tw.triggeredWindows, k) ==> tw.triggeredWindows[k] == old(tw.triggeredWindows[k]))
+  loop 1 invariant forall(j, 0, len(expiredWindows), expiredWindows[j] != nil && slotOK(expiredWindows[j], tw.size))
+
+func (*TumblingWindow).checkAndTriggerWindows
+  props C01 C02
+  acquires tw.mu
+  modifies *
+  before extractWindowDataLocked fire-only-closed-windows: *tw.currentSlot.End <= watermarkTime
+  loop 1 invariant held(tw.mu) && wheld(tw.mu) && twInv(tw)
+@*/
+
+/*@
+pred appended(nw, od, ts, data) := len(nw) == len(od) + 1 && forall(i, 0, len(od), nw[i] == od[i]) && nw[len(od)].Timestamp == ts && nw[len(od)].Data == data && nw[len(od)].Slot == nil
+pred isLate(wm, ts) := !zero(wm.currentWatermark) && ts < wm.currentWatermark
+pred inSlot(s, ts) := s != nil && *s.Start <= ts && ts < *s.End
+
+func (*TumblingWindow).Add
+  props C01 C02
+  acquires tw.mu
+  modifies *
+  observe late := IsEventTimeLate
+  ensures unplaceable-dropped: tw.config.TimeCharacteristic == "EventTime" && !second(extractTimestamp(data, tw.config.TsProp, tw.config.TimeUnit)) ==> tw.data == old(tw.data) && tw.currentSlot == old(tw.currentSlot) && tw.initialized == old(tw.initialized)
+  ensures on-time-buffered: tw.config.TimeCharacteristic == "EventTime" && second(extractTimestamp(data, tw.config.TsProp, tw.config.TimeUnit)) && !$late ==> appended(tw.data, old(tw.data), extractTimestamp(data, tw.config.TsProp, tw.config.TimeUnit), data)
+  ensures late-in-current-kept: tw.config.TimeCharacteristic == "EventTime" && second(extractTimestamp(data, tw.config.TsProp, tw.config.TimeUnit)) && $late && old(tw.initialized) && old(inSlot(tw.currentSlot, extractTimestamp(data, tw.config.TsProp, tw.config.TimeUnit))) ==> appended(tw.data, old(tw.data), extractTimestamp(data, tw.config.TsProp, tw.config.TimeUnit), data)
+  ensures late-dropped: tw.config.TimeCharacteristic == "EventTime" && second(extractTimestamp(data, tw.config.TsProp, tw.config.TimeUnit)) && $late && !inSlot(tw.currentSlot, extractTimestamp(data, tw.config.TsProp, tw.config.TimeUnit)) && tw.config.AllowedLateness <= 0 ==> seqeq(tw.data, old(tw.data))
+  ensures dropped-only-if-late: tw.config.TimeCharacteristic == "EventTime" && second(extractTimestamp(data, tw.config.TsProp, tw.config.TimeUnit)) && tw.config.AllowedLateness <= 0 && len(tw.data) == len(old(tw.data)) ==> $late
+  ensures first-event-seats-aligned-slot: tw.config.TimeCharacteristic == "EventTime" && second(extractTimestamp(data, tw.config.TsProp, tw.config.TimeUnit)) && !old(tw.initialized) && tw.config.AllowedLateness <= 0 ==> tw.initialized && tw.currentSlot != nil && *tw.currentSlot.Start == alignWindowStart(extractTimestamp(data, tw.config.TsProp, tw.config.TimeUnit), tw.size)
+  ensures slot-never-moved-by-ingest: old(tw.initialized) && tw.config.AllowedLateness <= 0 ==> tw.currentSlot == old(tw.currentSlot) && tw.initialized
+  ensures processing-time-always-buffered: tw.config.TimeCharacteristic != "EventTime" && second(extractTimestamp(data, tw.config.TsProp, tw.config.TimeUnit)) ==> appended(tw.data, old(tw.data), extractTimestamp(data, tw.config.TsProp, tw.config.TimeUnit), data)
+  loop 1 invariant held(tw.mu) && wheld(tw.mu) && twInv(tw)
+@*/
+
+/*@
+func NewWatermark
+  props C01 C02
+  ensures fresh: fresh(result)
+  ensures inv: wmInv(result)
+  ensures config: result.maxOutOfOrderness == maxOutOfOrderness && result.idleTimeout == idleTimeout
+  ensures starts-at-zero: zero(result.currentWatermark) && zero(result.maxEventTime) && zero(result.lastSentWatermark)
+
+func NewTumblingWindow
+  props C01 C02
+  modifies *
+  ensures inv: result1 == nil ==> result0 != nil && twInv(result0) && !result0.initialized && len(result0.data) == 0
+  ensures size-positive: result1 == nil ==> result0.size > 0
+
+func (*TumblingWindow).SetCallback
+  props C01
+  acquires tw.mu
+  modifies tw.callback
+  ensures tw.callback == callback
+
+func (*TumblingWindow).Reset
+  props C01 C02
+  modifies *
+  ensures cleared: !tw.initialized && tw.currentSlot == nil && len(tw.data) == 0
+
+func (*TumblingWindow).Trigger
+  props C01
+  acquires tw.mu
+  modifies *
+  loop 1 invariant newData == rowsFrom(arr($s), $i, nextStart)
+  loop 2 invariant resultData == rowsIn(arr($s), $i, *tw.currentSlot.Start, *tw.currentSlot.End, tw.currentSlot)
+  before Unlock batch-is-current-interval: len(resultData) > 0 ==> resultData == rowsIn(arr(old(tw.data)), len(old(tw.data)), *old(tw.currentSlot).Start, *old(tw.currentSlot).End, old(tw.currentSlot))
+  before Unlock later-rows-kept: len(resultData) > 0 ==> tw.data == rowsFrom(arr(old(tw.data)), len(old(tw.data)), *old(tw.currentSlot).End)
+  before Unlock advances-one-interval: len(resultData) > 0 ==> tw.currentSlot != nil && *tw.currentSlot.Start == *old(tw.currentSlot).End && *tw.currentSlot.End == *old(tw.currentSlot).End + tw.size
+  before Unlock event-time-noop: tw.config.TimeCharacteristic == "EventTime" ==> tw.data == old(tw.data) && tw.currentSlot == old(tw.currentSlot)
+@*/
+
+/*@
+// ---------------------------------------------------------------- sliding window (C08, C02)
+guarded_by SlidingWindow.mu: data, currentSlot, initialized, triggeredWindows, callback
+immutable SlidingWindow: config, size, slide
+monitor SlidingWindow.mu inv swInv
+
+pred swInv(sw) := sw.size > 0 && sw.slide > 0
+  && (sw.initialized ==> sw.currentSlot != nil)
+  && (sw.currentSlot != nil ==> slotOK(sw.currentSlot, sw.size) && *sw.currentSlot.Start % sw.slide == 0)
+  && sw.triggeredWindows != nil
+  && forallv(k, "", dom(sw.triggeredWindows, k) ==> sw.triggeredWindows[k] != nil && slotOK(sw.triggeredWindows[k].slot, sw.size))
+
+func (*SlidingWindow).createSlot
+  props C08
+  requires sw.slide > 0
+  ensures fresh: fresh(result)
+  ensures shape: slotOK(result, sw.size)
+  ensures slide-aligned: *result.Start % sw.slide == 0
+  ensures not-after-event: *result.Start <= t && t < *result.Start + sw.slide
+
+func (*SlidingWindow).createSlotFromStart
+  props C08
+  ensures fresh: fresh(result)
+  ensures shape: slotOK(result, sw.size)
+  ensures start: *result.Start == start
+
+func (*SlidingWindow).NextSlot
+  props C08
+  held sw.mu
+  requires sw.currentSlot != nil ==> sw.currentSlot.Start != nil && sw.currentSlot.End != nil
+  ensures nil: sw.currentSlot == nil ==> result == nil
+  ensures fresh: sw.currentSlot != nil ==> fresh(result)
+  ensures advances-by-slide: sw.currentSlot != nil ==> result.Start != nil && result.End != nil && *result.Start == *sw.currentSlot.Start + sw.slide && *result.End == *sw.currentSlot.End + sw.slide
+  ensures alignment-preserved: sw.currentSlot != nil && sw.slide > 0 && *sw.currentSlot.Start % sw.slide == 0 ==> *result.Start % sw.slide == 0
+
+func (*SlidingWindow).dropLastRow
+  props C08 C02
+  held sw.mu
+  modifies sw.data
+  ensures nonempty: len(old(sw.data)) > 0 ==> len(sw.data) == len(old(sw.data)) - 1
+  ensures prefix: forall(i, 0, len(sw.data), sw.data[i] == old(sw.data)[i])
+  ensures empty: len(old(sw.data)) == 0 ==> len(sw.data) == 0
+
+func (*SlidingWindow).getWindowKey
+  props C02
+  option pure
+
+func (*SlidingWindow).sendResult
+  props C08
+  ensures true
+
+func (*SlidingWindow).extractWindowDataLocked
+  props C08
+  held sw.mu
+  requires slot != nil ==> slot.Start != nil && slot.End != nil
+  modifies sw.data
+  ensures no-slot: slot == nil ==> len(result) == 0 && sw.data == old(sw.data)
+  ensures batch-is-interval: slot != nil && len(rowsIn(arr(old(sw.data)), len(old(sw.data)), *slot.Start, *slot.End, slot)) > 0 ==> result == rowsIn(arr(old(sw.data)), len(old(sw.data)), *slot.Start, *slot.End, slot)
+  ensures evict-only-below-next-start: slot != nil && len(rowsIn(arr(old(sw.data)), len(old(sw.data)), *slot.Start, *slot.End, slot)) > 0 ==> sw.data == rowsFrom(arr(old(sw.data)), len(old(sw.data)), *slot.Start + sw.slide)
+  ensures empty-interval-keeps-all: slot != nil && len(rowsIn(arr(old(sw.data)), len(old(sw.data)), *slot.Start, *slot.End, slot)) == 0 ==> len(result) == 0 && sw.data == old(sw.data)
+  loop 1 invariant resultData == rowsIn(arr($s), $i, *slot.Start, *slot.End, slot)
+  loop 2 invariant newData == rowsFrom(arr($s), $i, nextWindowStart)
+
+func (*SlidingWindow).triggerSpecificWindowLocked
+  props C08
+  held sw.mu
+  requires swInv(sw)
+  requires slot != nil && slot.Start != nil && slot.End != nil
+  modifies *
+  ensures still-locked: held(sw.mu) && wheld(sw.mu)
+  ensures inv: swInv(sw)
+
+extern (*SlidingWindow).triggerLateUpdateLocked
+  props C02
+  held sw.mu
+  modifies *
+  ensures held(sw.mu) && wheld(sw.mu)
+  ensures swInv(sw)
+
+func (*SlidingWindow).handleLateData
+  props C02
+  held sw.mu
+  requires swInv(sw)
+  modifies *
+  ensures still-locked: held(sw.mu) && wheld(sw.mu)
+  ensures inv: swInv(sw)
+  loop 1 invariant held(sw.mu) && wheld(sw.mu) && swInv(sw)
+
+func (*SlidingWindow).closeExpiredWindows
+  props C02
+  held sw.mu
+  requires swInv(sw)
+  modifies mapof(sw.triggeredWindows)
+  ensures expiry-rule: forallv(k, "", dom(sw.triggeredWindows, k) <==> old(dom(sw.triggeredWindows, k)) && watermarkTime < old(sw.triggeredWindows[k].closeTime))
+  ensures survivors-unchanged: forallv(k, "", dom(sw.triggeredWindows, k) ==> sw.triggeredWindows[k] == old(sw.triggeredWindows[k]))
+  ensures inv: swInv(sw)
+  loop 1 invariant forallv(k, "", dom(sw.triggeredWindows, k) <==> old(dom(sw.triggeredWindows, k)) && !($visited[k] && watermarkTime >= old(sw.triggeredWindows[k].closeTime)))
+  loop 1 invariant forallv(k, "", dom(sw.triggeredWindows, k) ==> sw.triggeredWindows[k] == old(sw.triggeredWindows[k]))
+
+func (*SlidingWindow).checkAndTriggerWindows
+  props C08 C02
+  acquires sw.mu
+  modifies *
+  before triggerSpecificWindowLocked fire-only-closed-windows: *slotToTrigger.End <= watermarkTime
+  before triggerSpecificWindowLocked advanced-before-firing: sw.currentSlot != nil && *sw.currentSlot.Start == *slotToTrigger.Start + sw.slide
+  loop 1 invariant held(sw.mu) && wheld(sw.mu) && swInv(sw)
+
+func (*SlidingWindow).Add
+  props C08 C02
+  acquires sw.mu
+  modifies *
+  observe late := IsEventTimeLate
+  ensures unplaceable-dropped: sw.config.TimeCharacteristic == "EventTime" && !second(extractTimestamp(data, sw.config.TsProp, sw.config.TimeUnit)) ==> sw.data == old(sw.data) && sw.currentSlot == old(sw.currentSlot) && sw.initialized == old(sw.initialized)
+  ensures on-time-buffered: sw.config.TimeCharacteristic == "EventTime" && second(extractTimestamp(data, sw.config.TsProp, sw.config.TimeUnit)) && !$late ==> appended(sw.data, old(sw.data), extractTimestamp(data, sw.config.TsProp, sw.config.TimeUnit), data)
+  ensures late-in-current-kept: sw.config.TimeCharacteristic == "EventTime" && second(extractTimestamp(data, sw.config.TsProp, sw.config.TimeUnit)) && $late && old(sw.initialized) && old(inSlot(sw.currentSlot, extractTimestamp(data, sw.config.TsProp, sw.config.TimeUnit))) ==> appended(sw.data, old(sw.data), extractTimestamp(data, sw.config.TsProp, sw.config.TimeUnit), data)
+  ensures late-dropped: sw.config.TimeCharacteristic == "EventTime" && second(extractTimestamp(data, sw.config.TsProp, sw.config.TimeUnit)) && $late && !inSlot(sw.currentSlot, extractTimestamp(data, sw.config.TsProp, sw.config.TimeUnit)) && sw.config.AllowedLateness <= 0 ==> seqeq(sw.data, old(sw.data))
+  ensures dropped-only-if-late: sw.config.TimeCharacteristic == "EventTime" && second(extractTimestamp(data, sw.config.TsProp, sw.config.TimeUnit)) && sw.config.AllowedLateness <= 0 && len(sw.data) == len(old(sw.data)) ==> $late
+  ensures first-event-seats-slide-aligned-slot: sw.config.TimeCharacteristic == "EventTime" && second(extractTimestamp(data, sw.config.TsProp, sw.config.TimeUnit)) && !old(sw.initialized) && sw.config.AllowedLateness <= 0 ==> sw.initialized && sw.currentSlot != nil && *sw.currentSlot.Start == alignWindowStart(extractTimestamp(data, sw.config.TsProp, sw.config.TimeUnit), sw.slide)
+  ensures slot-never-moved-by-ingest: old(sw.initialized) && sw.config.AllowedLateness <= 0 ==> sw.currentSlot == old(sw.currentSlot) && sw.initialized
+  loop 1 invariant held(sw.mu) && wheld(sw.mu) && swInv(sw)
+
+func (*SlidingWindow).SetCallback
+  props C08
+  acquires sw.mu
+  modifies sw.callback
+  ensures sw.callback == callback
+
+lemma C08-eviction-safe
+  props C08
+  var ts Int
+  var start Int
+  var slide Int
+  var size Int
+  var k Int
+  assume (> slide 0)
+  assume (> size 0)
+  assume (>= k 1)
+  assume (< ts (+ start slide))
+  goal (not (and (<= (+ start (* k slide)) ts) (< ts (+ (+ start (* k slide)) size))))
+
+lemma C08-membership-needs-only-later-rows
+  props C08
+  var ts Int
+  var start Int
+  var slide Int
+  var size Int
+  var k Int
+  assume (> slide 0)
+  assume (> size 0)
+  assume (>= k 1)
+  assume (and (<= (+ start (* k slide)) ts) (< ts (+ (+ start (* k slide)) size)))
+  goal (>= ts (+ start slide))
+@*/
+
+/*@
+func (*SlidingWindow).Trigger
+  props C08
+  acquires sw.mu
+  modifies *
+  before Unlock event-time-noop: sw.config.TimeCharacteristic == "EventTime" ==> sw.data == old(sw.data) && sw.currentSlot == old(sw.currentSlot)
+  before Unlock advances-by-one-slide: sw.currentSlot != old(sw.currentSlot) ==> sw.currentSlot != nil && *sw.currentSlot.Start == *old(sw.currentSlot).Start + sw.slide && *sw.currentSlot.End == *old(sw.currentSlot).End + sw.slide
+
+func (*SlidingWindow).Reset
+  props C08 C02
+  modifies *
+  ensures cleared: !sw.initialized && sw.currentSlot == nil && len(sw.data) == 0
+
+func NewSlidingWindow
+  props C08 C02
+  modifies *
+  ensures inv: result1 == nil ==> result0 != nil && swInv(result0) && !result0.initialized && len(result0.data) == 0
+@*/
